@@ -111,7 +111,12 @@ def verify_function(repo, registry, qualname, only_variant=None):
                 for an, av in bound["self"].attrs.items():
                     if isinstance(av, Value) and av.mutable:
                         av.frame_name = f"self.{an}"
-            spec_env = c.spec_env(interp, dict(bound))
+            spec_bound = dict(bound)
+            if fnode.args.kwarg and isinstance(bound.get(fnode.args.kwarg.arg), VDict) and bound[fnode.args.kwarg.arg].items is not None:
+                # the function may legitimately update its own **kwargs dict: contract clauses talk about the keywords PASSED
+                kw0 = bound[fnode.args.kwarg.arg]
+                spec_bound[fnode.args.kwarg.arg] = VDict(items=[[k, v] for k, v in kw0.items], key_kind=kw0.key_kind, val_kind=kw0.val_kind)
+            spec_env = c.spec_env(interp, spec_bound)
             # snapshot of mutable inputs for old(...)
             for cl in c.requires:
                 t = interp.as_bool_term(c.eval_spec(interp, cl.expr, spec_env))
